@@ -291,7 +291,15 @@ def eval_finite(case):
                     continue
                 la = {'op': 'add', 'num': 'f', 'a': mc.dump_mps(psi), 'b': mc.dump_mps(phi),
                       'alpha': mc.enc_scalar(al), 'beta': mc.enc_scalar(be)}
-                res = psi.add(phi, al, be)
+                try:
+                    res = psi.add(phi, al, be)
+                except ValueError as e:
+                    nonzero = any(np.any(B.qtotal != 0) for B in psi._B + phi._B)
+                    if 'wrong qtotal' in str(e) and nonzero:
+                        oracle.append(('C09.add[operand tensors carry different non-zero qtotal]',
+                                       'raises %r although both states have the same total charge' % str(e)))
+                        break
+                    raise
                 psi = res
                 vec = new
                 if check('C09.add'):
